@@ -219,7 +219,10 @@ func (o *wireOracle) complete(m *wireMsg) {
 		}
 		return
 	}
-	cmd, _ := parseCmd(a2)
+	cmd, _, _ := parseArg2(false, a2)
+	if cmd == nil {
+		cmd, _, _ = parseArg2(true, a2)
+	}
 	if cmd == nil {
 		return
 	}
@@ -231,11 +234,19 @@ func (o *wireOracle) complete(m *wireMsg) {
 	}
 	// C01(b): independent re-assembly of what was emitted equals what was written
 	w.eval("C01.wire-reassembly")
-	if !bytes.Equal(m.re.Args[1], rec.Req2) || !bytes.Equal(m.re.Args[2], rec.Req3) || string(m.re.Args[0]) != rec.Spec.Method {
-		// a relay that appends to arg2 legitimately changes arg2; those scenarios mark the call
+	want2 := rec.Req2
+	if h := rec.Req2Hop[m.emitter]; h != nil {
+		want2 = h // a relay that appended to arg2
+	}
+	if !bytes.Equal(m.re.Args[1], want2) || !bytes.Equal(m.re.Args[2], rec.Req3) || string(m.re.Args[0]) != rec.Spec.Method {
 		if !rec.Spec.NoCheck {
-			w.violate("C01", "wire-reassembly-differs", "request %s emitted by %s reassembles to arg1 %q arg2 %s arg3 %s", m.tag, m.emitter,
-				trunc(string(m.re.Args[0]), 20), diffDesc(m.re.Args[1], rec.Req2), diffDesc(m.re.Args[2], rec.Req3))
+			d := fmt.Sprintf("request %s emitted by %s reassembles to arg1 %q arg2 %s arg3 %s", m.tag, m.emitter,
+				trunc(string(m.re.Args[0]), 20), diffDesc(m.re.Args[1], want2), diffDesc(m.re.Args[2], rec.Req3))
+			if m.emitter == rec.Spec.From.Name {
+				w.violate("C01", "wire-reassembly-differs", "%s", d)
+			} else {
+				w.violate("C08", "relayed-request-differs", "%s", d)
+			}
 		}
 	}
 	if m.emitter == rec.Spec.From.Name {
